@@ -133,7 +133,7 @@ ENTRY = {'coq_dir': 'C13',
                'has finished writing its request (the courier delivers responses only to a requester whose request is out); equivariance of the '
                'event loop under the id renaming is tested (allocator started at usize::MAX-k), not proved - the theorem is about the renaming only. '
                'Timeouts are events that fire when the clock passes their deadline; the request timeout must be positive for the exactly-one '
-               'theorems (with_timeout(0) is accepted by the API and not exercised). LINK ROUND (coq/Link/Ts_C13.v, 6 theorems): the composition '
+               'theorems (with_timeout(0) is accepted by the API and not exercised). LINK ROUND (coq/Link/Ts_C13.v, 9 theorems): the composition '
                'with the TransportService model is at the level of inputs and outputs (possible because the contract ledger gstep reads only '
                'stimuli, resolved targets and calls): Model.step is unchanged and keeps its scripted environment, a joint history is one in which '
                'that script and the service agree on what open_substream returns (`jok`: accepted calls = OOpen outputs, same ids). The scripted '
@@ -152,10 +152,12 @@ ENTRY = {'coq_dir': 'C13',
                  'C13_opens_discharged_on_service / C13_exactly_one_on_service_model: for every joint history (service events handed to the protocol '
                  "as its stimuli, the protocol's open_substream calls executed on the service with the same ids) every open the protocol-side ledger "
                  'holds is in flight at the service or was lost by a silent close; left as assumptions there: nothing in flight at the service at '
-                 'the end (the connection-task contract, the hypothesis of C08_open_answered), nothing lost (`lost_run = []`; a THEOREM under one '
-                 'connection per peer at a time, C13_exactly_one_on_service_model_single; FALSE in general with two connections per peer: '
-                 'C13_service_silent_close_loses_open), every accepted dial answered (the manager, C05_sys2_no_silence with its two finding classes; '
-                 'the service only forwards DialFailure; not linked), the request timeout passes',
+                 'the end (the hypothesis of C08_open_answered; itself a THEOREM from the connection-task contract stated on the trace - every '
+                 'OpenSubstream command a task received is later answered or its connection is reported closed: C13_task_contract_empties_service, '
+                 'C13_exactly_one_on_service_model_contract), nothing lost (`lost_run = []`; a THEOREM under one connection per peer at a time, '
+                 'C13_exactly_one_on_service_model_single; FALSE in general with two connections per peer: C13_service_silent_close_loses_open), '
+                 'every accepted dial answered (the manager, C05_sys2_no_silence with its two finding classes; the service only forwards '
+                 'DialFailure; not linked), the request timeout passes',
                  "HashMap/FuturesUnordered iteration order is not observable (events of one step and dumps are sorted); the order in which tokio's "
                  'select! looks at two simultaneously ready branches is an input of the model',
                  "two-node theorems: the read side of a linked carrier is fed by the other node's bytes only (local read-side stimuli that resolve "
